@@ -146,10 +146,12 @@ Definition reseed_at (t : tree) (r : option bool) (n : Z) (upd coll supp : bool)
 Definition to_front (og : Z) (ks : list tree) : option (list tree) :=
   first_ctx (fun pre k post => if t_id k =? og then Some (k :: pre ++ post) else None) [] ks.
 
-(* to_outgroup_position: `Err OtherErr` = the seed is a unifurcation whose only child is the
+(* to_outgroup_position BEFORE repair 1c81f78b (re-seed with suppression, then move the outgroup to the front;
+   kept because the old form's theorems and the links to HeapOps.to_outgroup_position speak about it):
+   `Err OtherErr` = the seed is a unifurcation whose only child is the
    outgroup and gets suppressed as the root (the library then re-attaches the new seed below the
    detached old seed: an ill-formed structure, C03's subject; not generated by the harness) *)
-Definition to_outgroup (t : tree) (r : option bool) (og : Z) (upd supp : bool)
+Definition to_outgroup_old (t : tree) (r : option bool) (og : Z) (upd supp : bool)
   : res (tree * option bool) :=
   match parent_of og t with
   | None => Err AssertErr
@@ -165,6 +167,16 @@ Definition to_outgroup (t : tree) (r : option bool) (og : Z) (upd supp : bool)
       else Err OtherErr
     end
   end.
+
+(* to_outgroup_position NOW (repair 1c81f78b): the outgroup is moved to the front of its parent's child list
+   BEFORE reseed_at(parent, suppress_unifurcations): re-seeding keeps the order of the new seed's own children
+   (the old parent is appended last), so this is the re-seeding without suppression with the outgroup first,
+   followed by the tree-wide suppression when it is asked for - which now also handles an outgroup that is a
+   unifurcation (merged into its child, which stays first) and a unifurcating seed *)
+Definition to_outgroup (t : tree) (r : option bool) (og : Z) (upd supp : bool)
+  : res (tree * option bool) :=
+  do tr <- to_outgroup_old t r og upd false;;
+  Ok (if supp then suppress (fst tr) else fst tr, snd tr).
 
 Definition reroot_at_node (t : tree) (r : option bool) (n : Z) (upd supp coll : bool)
   : res (tree * option bool) :=
